@@ -416,6 +416,9 @@ type CallSpec struct {
 	// KeepCtx: the RPC's context is never cancelled by the caller (like context.Background()),
 	// so anything that waits for it outlives the call unless the library ends it.
 	KeepCtx bool
+	// BadRequest: the request of an "invoke" op cannot be marshalled (a string field that is not
+	// valid UTF-8), so SendMsg fails inside Invoke.
+	BadRequest bool
 }
 
 func methodDesc(m string) (full string, sd *grpc.StreamDesc) {
@@ -518,10 +521,14 @@ func (w *World) RunCall(conn grpc.ClientConnInterface, spec *CallSpec) {
 		switch op.K {
 		case "invoke":
 			req := MakeMsg(spec.Tag, 0, 0, op.Size)
+			var reqAny any = req
+			if spec.BadRequest {
+				reqAny = &wrapperspb.StringValue{Value: "\xff\xfe"}
+			}
 			resp := &wrapperspb.BytesValue{}
 			w.Log(Event{Actor: actor, Op: "send-begin", Idx: 0, Detail: "m=" + MsgIdent(req)})
 			w.Log(Event{Actor: actor, Op: "recv-begin", Idx: 0})
-			err := conn.Invoke(ctx, full, req, resp, opts...)
+			err := conn.Invoke(ctx, full, reqAny, resp, opts...)
 			em, ec := errFields(err)
 			d := errDetail(err)
 			if err == nil {
